@@ -2,6 +2,7 @@ SPECIFICATION Spec
 CONSTANTS
     Ids <- MCIds
     Modes <- MCModesNode
+    Times = {0}
     MaxPoints = 3
     MaxCrashes = 1
     MaxTaskRestarts = 0
